@@ -1,6 +1,7 @@
 package checks
 
 import (
+	"fmt"
 	"encoding/json"
 	"strings"
 	"testing"
@@ -80,6 +81,23 @@ func TestC19(t *testing.T) {
 		if v != "" {
 			r.Violation("seed", inputCase{s}, "%s", v)
 			if r.Violations() > 2 {
+				return
+			}
+		}
+	}
+	for _, kind := range gen.WideQueryKinds {
+		for _, n := range kit.PickInts([]int{1, 17, 129, 501, 1025}, gen.WideSizes) {
+			if strings.HasPrefix(kind, "d-") && n > 600 {
+				continue
+			}
+			s := gen.WideQuery(kind, n)
+			r.Begin("seed", func() interface{} { return inputCase{s} })
+			v, _ := c19Eval(s)
+			r.End()
+			r.Case(true, fmt.Sprintf("wide:%s:%d", kind, n))
+			r.Class("wide:" + kind)
+			if v != "" {
+				r.Violation("seed", inputCase{s}, "%s", cut(v, 0, 600))
 				return
 			}
 		}
